@@ -3,7 +3,7 @@ spec/ServerGuards.tla (abstract: Expected sets + event machine), spec/TimeoutWri
 api/handler/timeouthandler.go), spec/ServerGuardsGen.tla (scenario generator) -> replay through the chain
 that api.NewServer/engine.bindRoute composes (recorder, loopback httptest server, started api.Server) and
 through a real rpc server on loopback (gRPC code and, for late handlers, the time the answer arrives)."""
-import json
+import json, os
 from vlib import core
 
 PKG = "./api"
@@ -142,6 +142,14 @@ def rest_cases(ctx):
         c["delay_ms"] = d
         c["transports"] = ["api"]
         cases.append(c)
+    # the panic clause under load: the in-time, nothing-committed panic served many times concurrently (recorder path)
+    pan = [m for m in intime if m["term"] == "panic" and not m["steps"]]
+    if not pan:
+        raise core.Infra("no plain panic scenario among the generated ones")
+    c = {x: pan[0][x] for x in pan[0] if x != "boundary"}
+    c["mode"] = "stress"
+    c["n"] = 30000 if ctx.quick else 300000
+    cases.append(c)
     # MaxConns histories
     nconn = 0
     for n in (1, 2, 3):
@@ -155,10 +163,41 @@ def rest_cases(ctx):
     return cases
 
 
+def crash_of(ctx, label):
+    """first lines of a Go runtime fatal error / unrecovered panic in the output of a replay process"""
+    import glob, os, re
+    for f in sorted(glob.glob(os.path.join(ctx.build, "%s-*.out" % label))):
+        out = open(f, errors="replace").read()
+        m = re.search(r"^(fatal error: .*|panic: .*)$", out, re.M)
+        if m and "test timed out" not in m.group(1):
+            return out[m.start():m.start() + 3000]
+        i = out.find("WARNING: DATA RACE")     # -race builds: the chain's goroutines race on shared state
+        if i >= 0:
+            return out[i:i + 3000]
+    return None
+
+
+def guarded_replay(ctx, pkg, overlay, run, path, label, **kw):
+    """The REST driver hosts the server code under test in its own process: if that process dies of a runtime fatal
+    error or an unrecovered panic (e.g. 'concurrent map writes' on a header map the chain shares between the
+    handler goroutine and the time-out branch), the server was taken down - a violation of the statement, not a
+    harness problem.  Everything else that makes the driver fail stays an infrastructure error."""
+    try:
+        return ctx.replay(pkg, overlay, run, path, label=label, **kw)
+    except core.Infra:
+        crash = crash_of(ctx, label)
+        if crash is None:
+            raise
+        ctx.disagree("C02:rest:server-crash",
+                     "the process serving the scenarios through the real chain died while replaying %s:\n%s" % (os.path.basename(path), crash),
+                     case=json.dumps(dict(mode="rerun", label=label, cases=path)), source="crash")
+        return None
+
+
 def run_rest(ctx, cases, label="rest", race=False, shards=6):
     path, n = ctx.write_cases(label + ".ndjson", cases)
     ctx.samples += core.sample_of([c for c in cases if c.get("mode") == "script"], 2)
-    ctx.replay(PKG, OVERLAY, "^TestVerifC02$", path, label=label, shards=shards, race=race, timeout=1500)
+    return guarded_replay(ctx, PKG, OVERLAY, "^TestVerifC02$", path, label, shards=shards, race=race, timeout=1500)
 
 
 def vacuity(ctx, label="rest"):
@@ -177,6 +216,12 @@ def run_rpc(ctx):
         cases += json.loads(a)
     cases.sort(key=lambda m: (m["wait"] in ("sleep", "never"), m["beh"], m["late"], m["cause"], m["wait"]))
     ctx.notes["scenarios_rpc"] = len(cases)
+    # the panic clause under load: the in-time panicking handler, many concurrent calls
+    pan = [m for m in cases if m["beh"] == "panic" and not m["late"]]
+    if not pan:
+        raise core.Infra("no in-time panic scenario among the generated RPC ones")
+    st = dict(pan[0], mode="rpc-stress", n_local=(200000 if ctx.quick else 2000000), n_wire=(6400 if ctx.quick else 64000))
+    cases.append(st)
     path, n = ctx.write_cases("rpc.ndjson", cases)
     ctx.samples += core.sample_of(cases, 1)
     ctx.replay(RPKG, ROVERLAY, "^TestVerifC02Rpc$", path, label="rpc", shards=1, timeout=600,
@@ -186,8 +231,8 @@ def run_rpc(ctx):
 def run(ctx):
     mc(ctx)
     cases = rest_cases(ctx)
-    run_rest(ctx, cases)
-    vacuity(ctx)
+    if run_rest(ctx, cases) is not None:
+        vacuity(ctx)
     if not ctx.quick:
         b = [c for c in cases if c.get("mode") == "boundary"]
         run_rest(ctx, b, label="rest-race", race=True, shards=4)
@@ -203,8 +248,18 @@ def run(ctx):
 
 def replay(ctx, rp):
     case = json.loads(rp["case"])
+    if case.get("mode") == "rerun":       # a server crash has no single case: replay the whole case file
+        src = case["cases"]
+        if not os.path.exists(src):
+            cases = rest_cases(ctx)
+            if case["label"] == "rest-race":
+                cases = [c for c in cases if c.get("mode") == "boundary"]
+        else:
+            cases = [json.loads(x) for x in open(src) if x.strip()]
+        run_rest(ctx, cases, label=case["label"], race=(case["label"] == "rest-race"))
+        return
     path, _ = ctx.write_cases("replay.ndjson", [case])
-    if case.get("mode") == "rpc":
+    if case.get("mode", "").startswith("rpc"):
         ctx.replay(RPKG, ROVERLAY, "^TestVerifC02Rpc$", path, label="replay", shards=1)
     else:
         ctx.replay(PKG, OVERLAY, "^TestVerifC02$", path, label="replay", shards=1)
